@@ -86,8 +86,8 @@ def cmp_run(name, tier):
     return {'name': name, 'module': 'MC_Compare', 'mode': 'cmp', 'invariants': ['Reflexive'],
             'constants': {'Tier': '"%s"' % tier, 'Emit': 'TRUE'}, 'timeout': 3000}
 PLANS['C12'] = {
-    'quick': [cmp_run('pairsQ', 'quick'), cmp_run('pairsBig', 'big'), cmp_run('pairsNum', 'nums'), cmp_run('fold', 'fold')],
-    'thorough': [cmp_run('pairsT', 'thorough'), cmp_run('pairsBig', 'big'), cmp_run('pairsNum', 'nums'), cmp_run('fold', 'fold')],
+    'quick': [cmp_run('pairsQ', 'quick'), cmp_run('pairsBig', 'big'), cmp_run('pairsNum', 'nums'), cmp_run('fold', 'fold'), cmp_run('perm4', 'perm4')],
+    'thorough': [cmp_run('pairsT', 'thorough'), cmp_run('pairsBig', 'big'), cmp_run('pairsNum', 'nums'), cmp_run('fold', 'fold'), cmp_run('perm4', 'perm4')],
     'rule': 'all ordered pairs (a, b, case flag) over a finite universe of values (all scalars incl. boundary numbers, all containers of width <= 2 '
             'over them with keys a/A/b, nested containers in thorough); non-trivial = every pair (each is compared in both orders and with ownership flags toggled); distinct by construction',
     'assumptions': ['objects have distinct keys (distinct after case folding when comparing case-insensitively), as the property states',
